@@ -1,0 +1,1 @@
+//! Hooks for property C14 (empty until needed).
